@@ -176,6 +176,18 @@ Proof.
   destruct (p_default p); try (destruct (lookup_spec specs (p_name p))); simpl; auto.
 Qed.
 
+(* metadata specs are OBJECTS (ControlSpec minval maxval warp step default); what the layout is given
+   is specs_of: the declared default, or minval when none was declared -- never clamped or re-ordered,
+   so an inverted range (minval > maxval), an empty range, a default outside the range and every
+   warp/step leave it alone (cs_max, the warp and the step do not occur on the right-hand side) *)
+Theorem spec_objects_give_declared_default : forall l rs prov i p kv,
+  (p_default p = DNone \/ p_default p = DInvalid) ->
+  find (fun kv => String.eqb (fst kv) (p_name p)) l = Some kv ->
+  cn_default (entry_of (specs_of l) rs prov i p) =
+    [match cs_default (snd kv) with Some d => d | None => cs_min (snd kv) end] /\
+  cn_scalar (entry_of (specs_of l) rs prov i p) = true.
+Proof. exact spec_object_default. Qed.
+
 (* SynthDef.wrap: a definition is built by folding build_one over the functions in the order
    they are entered; each is laid out (all theorems above) from the state left by the ones
    before it, which it only extends *)
@@ -392,6 +404,13 @@ Example ctl_lags_example :
     map (fun u => (u_cls u, u_lags u)) (st_units st') =
       [(UControl, []); (UTrig, []); (UAudio, []); (ULag, [1 # 2; 0]%Q)].
 Proof. vm_compute. eexists. eexists. repeat split; reflexivity. Qed.
+
+Example spec_object_example :
+  match build_list fixed (specs_of [("a", {| cs_min := 1; cs_max := 0; cs_default := Some (1 # 4) |});
+                                    ("b", {| cs_min := 8; cs_max := (-8); cs_default := None |})]%Q)
+                   [{| f_params := [P "a" DNone; P "b" DNone; P "c" DNone]; f_rates := []; f_prepend := 0 |}] with
+  | Ok st => st_controls st | Err _ => [] end = [1 # 4; 8; 0]%Q.
+Proof. vm_compute. reflexivity. Qed.
 
 (* sig_err on concrete signatures: the example builds; each error kind is reachable *)
 Example sig_ok_example : sig_err [("e", 9%Q)] ex_sig = None.
